@@ -71,6 +71,14 @@ func (e *Engine) callFunction(st *State, fr *Frame, callee *ssa.Function, bindin
 	}
 	full := callee.String()
 	e.staticCallEvent(st, fr, callee, args, pos, ins)
+	if recv := callee.Signature.Recv(); recv != nil && len(args) > 0 && !e.isRepoFunc(callee) {
+		// a method of a library type with a pointer receiver dereferences it (the standard library and the
+		// dependencies have no methods that are meant to be called on nil, except those listed)
+		if _, isPtr := recv.Type().Underlying().(*types.Pointer); isPtr && !nilReceiverOK[full] && args[0].A == nil && !libReceiverKnown(callee, ins) {
+			name := e.siteName(st, fr, "nil-deref", pos, ins)
+			st.check("nil-deref", name, not(eq(args[0].S, "0")), pos)
+		}
+	}
 	if m, ok := libModels[full]; ok {
 		setRes(m(e, st, fr, args, resT, pos, ins))
 		return
@@ -132,6 +140,16 @@ func (e *Engine) callFunction(st *State, fr *Frame, callee *ssa.Function, bindin
 		e.unmodelled["recursion-or-depth:"+funcDisplayName(callee)] = true
 		setRes(e.unknownCall(st, full, args, resT, true))
 		return
+	}
+	// values passed inside an interface (sort.Slice(s, ...), fmt.Sscan(&x), json.Unmarshal(b, &v)) are reachable too
+	if ci, ok := ins.(ssa.CallInstruction); ok {
+		for _, a := range ci.Common().Args {
+			if mi, ok := a.(*ssa.MakeInterface); ok {
+				if _, isSlice := mi.X.Type().Underlying().(*types.Slice); isSlice {
+					e.havocReachable(st, e.val(st, fr, mi.X))
+				}
+			}
+		}
 	}
 	setRes(e.unknownCall(st, full, args, resT, false))
 }
@@ -845,4 +863,30 @@ func (e *Engine) afterCallEvent(st *State, fr *Frame, callee *ssa.Function, args
 		e.bindResults(env, callee, res)
 		e.runEvent(st, fr, ev, env, "after("+ev.Target+")", pos, ins)
 	}
+}
+
+// nilReceiverOK: library methods that may be called on a nil pointer receiver.
+var nilReceiverOK = map[string]bool{
+	"(*sync.WaitGroup).Add": false,
+}
+
+// libReceiverKnown: receivers that are package-level variables of a library (base64.StdEncoding, elliptic curves, ...) are
+// initialised by that library; sync primitives are modelled separately.
+func libReceiverKnown(callee *ssa.Function, ins ssa.Instruction) bool {
+	if callee.Pkg != nil {
+		switch callee.Pkg.Pkg.Path() {
+		case "sync", "sync/atomic":
+			return true
+		}
+	}
+	ci, ok := ins.(ssa.CallInstruction)
+	if !ok || len(ci.Common().Args) == 0 {
+		return false
+	}
+	if u, ok := ci.Common().Args[0].(*ssa.UnOp); ok {
+		if _, isGlobal := u.X.(*ssa.Global); isGlobal {
+			return true
+		}
+	}
+	return false
 }
